@@ -63,8 +63,7 @@ CLAIMS.update({
          'binding, visibility, defined and common flags taken from the ELF symbol. get_version_definition_for_versym (any number of '
          'definitions, loop contract): the definition recorded is the one whose index is the low 15 bits of the Versym word, its name '
          'comes from its first Verdaux, and it is marked default exactly when bit 15 (hidden) is clear.',
-         'Scoped: libelf accessors are stubs; alias grouping by address, symbol-table choice, get_version_for_symbol itself and '
-         'get_version_needed_for_versym are not decided. STB_GNU_UNIQUE is left unconstrained in is_public.', '5 C18'),
+         'Scoped: libelf accessors are stubs; alias grouping by address, symbol-table choice, get_symbol_versionning_sections are not decided; get_version_for_symbol and get_version_needed_for_versym are under contract too. STB_GNU_UNIQUE is left unconstrained in is_public.', '5 C18'),
  'C28': ('proof',
          'symtab::make_filter()+symtab_filter::matches (real text): the corpus filter keeps exactly the public symbols and, for a '
          'kernel binary, exactly those in ksymtab; load_ region: a __ksymtab_<sym> marker of a kernel binary records <sym> (name '
@@ -78,7 +77,7 @@ CLAIMS.update({
          'lookup_symbol_from_gnu_hash_tab (arbitrary section content and size up to 16 MiB, arbitrary symbols, any libelf call may '
          'fail), get_version_definition_for_versym (arbitrary version-definition section), the stt/stb/stv mappings and the per-symbol region of symtab::load_ (every st_info/st_other/st_shndx). Loops are '
          'closed by inductive loop contracts (loop-rule generator).',
-         'Scoped to those functions. libelf/libdw are a ghost model; get_version_for_symbol / get_version_needed_for_versym, '
+         'Scoped to those functions (incl. get_version_needed_for_versym and get_version_for_symbol). libelf/libdw are a ghost model; '
          'lookup_symbol_from_symtab, DWARF attribute handling and the rest of symtab::load_ are not decided.', '5 C34'),
  'C37': ('proof',
          'find_hash_table_section_index: for every section list in any order the reported kind is GNU iff a SHT_GNU_HASH exists '
